@@ -444,7 +444,9 @@ def reap_strays():
             continue
         try:
             if os.path.realpath("/proc/%s/exe" % pid) == exe and b"obey" in open("/proc/%s/cmdline" % pid, "rb").read().split(b"\0")[1:2]:
-                os.kill(int(pid), 9)
+                ppid = open("/proc/%s/stat" % pid).read().rsplit(")", 1)[1].split()[1]
+                if not os.path.realpath("/proc/%s/exe" % ppid).endswith("/vh"):      # its worker is gone (another run's children are left alone)
+                    os.kill(int(pid), 9)
         except OSError:
             pass
 
@@ -553,7 +555,8 @@ def run(tier):
         key = "forced:" + "+".join(sorted(broken)) + ":" + case["obs"]["k"]
         v.finding(key, "under the forced schedule %s the script saw %s for the plan %s: breaks %s" % (
             [" ".join(s) for s in meta["steps"]], case["obs"], case["plan"], sorted(broken)),
-            {"plan": case["plan"], "obs": case["obs"], "schedule": reqs[i]["schedule"], "rest": reqs[i]["rest"], "policies": meta["pol"],
+            {"plan": case["plan"], "obs": case["obs"], "schedule": reqs[i]["schedule"], "rest": reqs[i]["rest"], "policies": meta["pol"], "meta": meta,
+             "policy": reqs[i]["policy"],
              "events": resp.get("events"), "gate_log": resp.get("log"), "unrealised": resp.get("unrealised")})
     n_unreal = sum(unrealised.values())
     cov["schedule_replay"] = {"schedules": len(reqs), "realised": len(reqs) - n_unreal - sum(ended_early.values()), "unrealised": dict(unrealised), "run_ended_before_the_schedule": dict(ended_early), "accepted_by_abstract_layer": sum(1 for b in verdicts if not b),
@@ -658,3 +661,33 @@ def run(tier):
     if rc == 0 and tool_error:
         raise common.ToolError(tool_error)        # never hides a violation: only raised when there is none
     return rc
+
+
+def replay(path):
+    """bin/check C16 quick --replay FILE: forces the recorded schedule (or repeats the recorded free run 20 times)."""
+    common.build_harness()
+    rp = json.load(open(path))["replay"]
+    sockdir = "/tmp/c16_replay_%d" % os.getpid()
+    os.makedirs(sockdir, exist_ok=True)
+    if rp.get("schedule") is not None and rp.get("meta"):
+        meta = rp["meta"]
+        sock = os.path.join(sockdir, "r.sock")
+        req = {"id": 0, "modes": ["run"], "kind": "capture", "src": script_for(["obey", "sock", sock], meta["pol"], LONG_MS), "schedule": rp["schedule"],
+               "sock": sock, "rest": rp["rest"], "policy": rp["policy"]}
+        resp = runner.run_requests([req], mode="procs", nworkers=1, timeout=90.0).get(0, {}).get("run", {})
+        plan, content = actual_plan(meta, resp, rp["policy"]["max_capture_bytes_per_stream"])
+        obs = observe(resp, content, any(len(e) > 2 and e[2] == "granted+timeout" for e in resp.get("log", [])))
+        verdicts, _ = judge([{"plan": plan, "obs": obs}], "replay")
+        print("plan %s\nforced %s\nunrealised: %s\nscript saw %s\nbreaks: %s" % (plan, [" ".join(x) for x in meta["steps"]], resp.get("unrealised"), obs, sorted(verdicts[0]) or "nothing"))
+        shutil.rmtree(sockdir, ignore_errors=True)
+        return 1 if verdicts[0] else 0
+    if rp.get("script") and rp.get("plan") and rp.get("policy"):
+        bad = 0
+        for n in range(20):
+            resp = runner.run_requests([{"id": 0, "modes": ["run"], "kind": "capture", "src": rp["script"], "schedule": None, "policy": rp["policy"]}],
+                                       mode="procs", nworkers=1, timeout=90.0).get(0, {}).get("run", {})
+            print("run %d: st=%r kind=%r stream=%r values=%s alive_after=%s" % (n, resp.get("st"), resp.get("ekind"), resp.get("estream"), resp.get("out"), resp.get("alive_after")))
+        print("free runs are not forced: compare with the recorded observation %s" % rp.get("obs"))
+        return bad
+    print("nothing to replay in %s" % path)
+    return 2
